@@ -37,9 +37,31 @@ pub(crate) fn named(attr: &StructAttr, ts_name: Expr, fields: &FieldsNamed) -> R
     let fields = quote!(<[String]>::join(&[#(#formatted_fields),*], " "));
     let flattened = quote!(<[String]>::join(&[#(#flattened_fields),*], " & "));
 
+    // `{ own fields } & flattened & ..`, where an operand that begins with an object literal is merged into
+    // the object literal the text ends with: `{ a: A, } & { b: B, }` becomes `{ a: A, b: B, }`. Not
+    // necessary, but it results in simpler type definitions. Only the operands themselves are joined this
+    // way; the text inside an operand (the type of a field, for instance) is left as it is.
+    let own = match formatted_fields.len() {
+        0 => quote!(None::<String>),
+        _ => quote!(Some(format!("{{ {} }}", #fields))),
+    };
+    let merged = quote!({
+        let mut merged: Option<String> = #own;
+        for operand in Vec::<String>::from([#(#flattened_fields),*]) {
+            merged = Some(match (merged, operand.strip_prefix("{ ")) {
+                (None, _) => operand,
+                (Some(mut text), Some(members)) if text.ends_with(" }") => {
+                    text.truncate(text.len() - 1);
+                    text.push_str(members);
+                    text
+                }
+                (Some(text), _) => format!("{text} & {operand}"),
+            });
+        }
+        merged.unwrap_or_else(|| "{  }".to_owned())
+    });
+
     let inline = match (formatted_fields.len(), flattened_fields.len()) {
-        (0, 0) => quote!("{  }".to_owned()),
-        (_, 0) => quote!(format!("{{ {} }}", #fields)),
         (0, 1) => quote! {{
             if #flattened.starts_with('(') && #flattened.ends_with(')') {
                 #flattened[1..#flattened.len() - 1].trim().to_owned()
@@ -47,23 +69,15 @@ pub(crate) fn named(attr: &StructAttr, ts_name: Expr, fields: &FieldsNamed) -> R
                 #flattened.trim().to_owned()
             }
         }},
-        (0, _) => quote!(#flattened),
-        (_, _) => quote!(format!("{{ {} }} & {}", #fields, #flattened)),
+        (_, _) => merged.clone(),
     };
 
-    let inline_flattened = match (formatted_fields.len(), flattened_fields.len()) {
-        (0, 0) => quote!("{  }".to_owned()),
-        (_, 0) => quote!(format!("{{ {} }}", #fields)),
-        (0, _) => quote!(#flattened),
-        (_, _) => quote!(format!("{{ {} }} & {}", #fields, #flattened)),
-    };
+    let inline_flattened = merged;
 
     Ok(DerivedTS {
         crate_rename,
-        // the `replace` combines `{ ... } & { ... }` into just one `{ ... }`. Not necessary, but it
-        // results in simpler type definitions.
-        inline: quote!(#inline.replace(" } & { ", " ")),
-        inline_flattened: Some(quote!(#inline_flattened.replace(" } & { ", " "))),
+        inline,
+        inline_flattened: Some(inline_flattened),
         docs: attr.docs.clone(),
         dependencies,
         export: attr.export,
